@@ -143,6 +143,47 @@ T.update({
              strengthened="C20 dense runs of 4095, 4096, 4097, 5000, 8192, 8193, 9000 units, optionally followed by valid text"),
 })
 
+T.update({
+ "C02-r3": dict(file="internal/decoder/jitdec/compiler.go", what="compileStructBody: the key-matching sequence for the second and later members replaced by a jump back to the sequence of the first member, which starts with check_char '}'",
+             needs="struct destination through the JIT and a comma (optionally followed by white space) directly before the closing brace of an object: {\"a\":1,}",
+             caught={"C02": "quick after strengthening (every shard)", "C01": "quick after strengthening (every shard)"}, missed={"C02-before": "no mutation produced a trailing comma (dup-structural gives ',,')", "C01-before": "same"},
+             strengthened="gen.Mutate kind 'extra-comma': a comma before a closing or after an opening bracket, five white-space forms. By-catch: [1,2,] accepted into a full fixed-size array on the unchanged tree (repaired, 34d231f)"),
+ "C04-r3": dict(file="internal/encoder/encoder.go", what="ValidateString branch of encodeFinishWithPool: the corrected text stays in the pooled scratch buffer, which is then freed, and the result buffer is freed later as well: two pool entries over one backing array",
+             needs="a pooled Marshal with ValidateString of invalid UTF-8 whose corrected output fits the pooled buffer, then a Marshal that needs two pooled buffers at once (nested Marshal, EscapeHTML, ValidateString again, two goroutines)",
+             caught={"C06": "quick, first cases of every shard", "C08": "quick (~100 s, every shard)"}, missed={"C04": "quick (cases are single calls; the pool state left by one case is not what the next one needs)"}, strengthened=""),
+ "C06-r3": dict(file="internal/encoder/x86/assembler_regabi_amd64.go", what="_asm_OP_i16 reserves 5 bytes instead of 6 before i64toa writes into the spare capacity (sign forgotten)",
+             needs="JIT encoder, an int16 of -10000 or below emitted when exactly five bytes of capacity remain (EncodeInto with a caller buffer)",
+             caught={"C06": "quick after strengthening (canary overwritten / fault at the guard page, 23 s)"}, missed={"C06-before": "EncodeInto values were decoded from JSON into interface{}: no typed integers", "C04": "quick", "C03": "quick (the text is correct)"},
+             strengthened="C06 'into' cases with typed numbers of all fourteen kinds (extremes, powers of ten and neighbours) as scalar, slice, struct, pointer, map value, spare capacity 0..40"),
+ "C09-r3": dict(file="internal/caching/pcache.go", what="_ProgramMap.insert masks the probe index before incrementing it: the linear probe no longer wraps at the end of the table",
+             needs="two types whose hash selects the last bucket of a program cache (or a probe run reaching it): thousands of types, or chosen hashes",
+             caught={"C09": "quick after strengthening (7 cases: worker panics, index out of range [4096])"}, missed={"C09-before": "a few dozen types per worker process: two of them in bucket 4095 has probability about 1e-4", "C08": "quick"},
+             strengthened="C09 draws, in one case of three, three struct types whose runtime type hash selects one bucket (4095, 0 or 1234) of the 4096-bucket caches and probes each by value and by pointer"),
+ "C11-r3": dict(file="internal/decoder/optdec/helper.go", what="SkipNumberFast no longer counts '+' as part of a number literal",
+             needs="SONIC_USE_OPTDEC=1, a literal with e+ / E+, a destination that keeps the text (json.Number anywhere, interface{} with UseNumber inside a typed root)",
+             caught={"C11": "quick (18 s, every shard: 0E+0 vs 0E)"}, missed={}, strengthened=""),
+ "C12-r3": dict(file="internal/rt/base64_amd64.go, internal/rt/base64_compat.go", what="EncodeBase64 (VM only) appends the opening quote after the capacity check instead of before it",
+             needs="VM back end, a non-empty []byte whose base64 text exactly fills the remaining capacity of the output buffer: panic 'encoder output buffer is too small'",
+             caught={"C12": "quick after strengthening (17 s, every shard)"}, missed={"C12-before": "both back ends were only compared through encoder.Encode with pooled buffers of whatever capacity earlier cases left"},
+             strengthened="C12 runs both back ends through EncodeInto as well, capacity = output length minus 0..13"),
+ "C14-r3": dict(file="ast/visitor.go", what="traverser.decodeValue returns from the array branch without giving the nesting level back (objects stay balanced)",
+             needs="one ast.Preorder call over a document with more than 4096 arrays in total, at any depth",
+             caught={"C14": "quick after strengthening (75 cases)"}, missed={"C14-before": "documents had a few hundred containers at most"},
+             strengthened="C14 flat documents of 4000..9000 sibling containers, one case in forty"),
+ "C15-r3": dict(file="ast/parser.go", what="skipNextPair unquotes a key only if the first escape lies after the first byte",
+             needs="lazy object loaded pair by pair (Get/Index/iteration/Set on a still-lazy node) and a key starting with an escape sequence",
+             caught={"C15": "quick (107 cases)", "C14": "quick (6 cases)"}, missed={}, strengthened=""),
+ "C17-r3": dict(file="internal/encoder/stream.go", what="StreamEncoder.Encode shadows err in the newline write: a Writer failing exactly on the newline goes unreported",
+             needs="stream encoder without SetIndent, newline not disabled, Writer accepting the payload and failing on the one-byte newline write",
+             caught={"C17": "quick (regress case C17-encoder-newline-error and 46 cases)"}, missed={}, strengthened=""),
+ "C19-r3": dict(file="internal/encoder/x86/assembler_regabi_amd64.go", what="_FM_exp32 written as 0x7f << 24: the JIT classifies finite float32 values of the top binade as NaN/Inf",
+             needs="JIT encoder and a float32 of magnitude >= 2^127 (1 in 256 random bit patterns)",
+             caught={"C19": "quick (179 cases)", "C03": "quick (359 cases)"}, missed={}, strengthened=""),
+ "C20-r3": dict(file="internal/decoder/jitdec/generic_regabi_amd64.go", what="generic decoder: XORL moved between BTQ and SETCC clears the carry flag, so F_UNICODE_REPLACE is always passed to unquote",
+             needs="UseUnicodeErrors, a lone surrogate escape, an interface{} / map[string]interface{} / []interface{} destination",
+             caught={"C18": "quick (regress case C18-unicode-errors-froze and ~2100 cases)"}, missed={"C20": "quick (the routine-level check calls unquote with its own flags; the option plumbing is C18's)"}, strengthened=""),
+})
+
 def main():
     ids = sys.argv[1:] or sorted(T)
     for i in ids:
